@@ -40,10 +40,10 @@ Section Orders.
 
   (* For every well-formed store, horizon and org, a line of segmeta.json / metricmeta.json is
      gone after the pass, together with its directory, iff it belongs to the org and its
-     newest event is not newer than the horizon.  ([mmem_ok]: the selected metrics segments are
-     known to the in-memory metadata, which holds after every start; without it see
-     C14_metrics_pass_aborts_refuted.) *)
-  Theorem C14_retention_selects_exactly : forall hz org st, wf st = true -> mmem_ok hz org st ->
+     newest event is not newer than the horizon.  No assumption on what the in-memory metadata
+     holds: a selected metrics segment that is not (yet) in it is removed like the others
+     (before the repair it made the metrics half return, C14_prefix_metrics_pass_aborts_refuted). *)
+  Theorem C14_retention_selects_exactly : forall hz org st, wf st = true ->
     forall s, In s (segmeta st ++ mmeta st) ->
     let st' := run ord ordp ordn hz org st in
     (In s (segmeta st' ++ mmeta st') <-> expired hz org s = false) /\
@@ -51,30 +51,30 @@ Section Orders.
   Proof. exact (retention_selects_exactly ord ordp ordn ord_perm ordp_perm ordn_perm). Qed.
 
   (* a segment with an event newer than the horizon keeps its metadata line and its directory *)
-  Theorem C14_newer_segment_survives : forall hz org st, wf st = true -> mmem_ok hz org st ->
+  Theorem C14_newer_segment_survives : forall hz org st, wf st = true ->
     forall s, In s (segmeta st ++ mmeta st) -> hz < latest_ms s ->
     let st' := run ord ordp ordn hz org st in
     In s (segmeta st' ++ mmeta st') /\ (In (s_dir s) (dirs st) -> In (s_dir s) (dirs st')).
   Proof.
-    intros hz org st Hwf OK s Hs Hn.
-    destruct (survivors_untouched ord ordp ordn ord_perm ordp_perm ordn_perm hz org st Hwf OK s Hs (expired_false_newer hz org s Hn)) as [A [B _]].
+    intros hz org st Hwf s Hs Hn.
+    destruct (survivors_untouched ord ordp ordn ord_perm ordp_perm ordn_perm hz org st Hwf s Hs (expired_false_newer hz org s Hn)) as [A [B _]].
     split; assumption.
   Qed.
 
   (* a rotated segment of the org whose newest event is older than the horizon is removed *)
-  Theorem C14_older_segment_is_deleted : forall hz org st, wf st = true -> mmem_ok hz org st ->
+  Theorem C14_older_segment_is_deleted : forall hz org st, wf st = true ->
     forall s, In s (segmeta st ++ mmeta st) -> s_org s = org -> latest_ms s < hz ->
     let st' := run ord ordp ordn hz org st in
     ~ In s (segmeta st' ++ mmeta st') /\ ~ In (s_dir s) (dirs st') /\ searchable st' s = false.
   Proof.
-    intros hz org st Hwf OK s Hs Ho Hl.
-    destruct (deleted_not_searchable ord ordp ordn ord_perm ordp_perm ordn_perm hz org st Hwf OK s Hs (expired_older hz org s Ho Hl)) as [A [B C]].
+    intros hz org st Hwf s Hs Ho Hl.
+    destruct (deleted_not_searchable ord ordp ordn ord_perm ordp_perm ordn_perm hz org st Hwf s Hs (expired_older hz org s Ho Hl)) as [A [B C]].
     repeat split; assumption.
   Qed.
 
   (* lines that are not selected stay listed, keep their directory and stay searchable
      (in-memory entry, files, index name) *)
-  Theorem C14_survivors_untouched : forall hz org st, wf st = true -> mmem_ok hz org st ->
+  Theorem C14_survivors_untouched : forall hz org st, wf st = true ->
     forall s, In s (segmeta st ++ mmeta st) -> expired hz org s = false ->
     let st' := run ord ordp ordn hz org st in
     In s (segmeta st' ++ mmeta st') /\
@@ -92,7 +92,7 @@ Section Orders.
 
   (* after the pass the two metadata files hold exactly the lines that were not selected, in
      their old order, and a line is listed iff its directory still exists *)
-  Theorem C14_metadata_lists_survivors : forall hz org st, wf st = true -> mmem_ok hz org st ->
+  Theorem C14_metadata_lists_survivors : forall hz org st, wf st = true ->
     let st' := run ord ordp ordn hz org st in
     segmeta st' = filter (fun s => negb (expired hz org s)) (segmeta st) /\
     mmeta st' = filter (fun s => negb (expired hz org s)) (mmeta st) /\
@@ -101,7 +101,7 @@ Section Orders.
   Proof. exact (metadata_lists_survivors ord ordp ordn ord_perm ordp_perm ordn_perm). Qed.
 
   (* what was selected cannot be found any more *)
-  Theorem C14_deleted_not_searchable : forall hz org st, wf st = true -> mmem_ok hz org st ->
+  Theorem C14_deleted_not_searchable : forall hz org st, wf st = true ->
     forall s, In s (segmeta st ++ mmeta st) -> expired hz org s = true ->
     let st' := run ord ordp ordn hz org st in
     searchable st' s = false /\ ~ In (s_dir s) (dirs st') /\ ~ In s (segmeta st' ++ mmeta st').
@@ -116,7 +116,7 @@ Section Orders.
      The repeated pass may run later (horizon hz2 >= hz) and then select more segments: the
      outcome is that of an uninterrupted pass at hz2.  This covers every content the interrupted
      pass may have left in segmeta.json.tmp (see C14_stale_tmp_is_harmless). *)
-  Theorem C14_interrupted_then_repeated_partial : forall hz org st, wf st = true -> mmem_ok hz org st ->
+  Theorem C14_interrupted_then_repeated_partial : forall hz org st, wf st = true ->
     forall hz2, hz <= hz2 -> forall k,
     let A := run ord ordp ordn hz2 org (restart (interrupted ord ordp ordn k hz org st)) in
     let B := run ord ordp ordn hz2 org (restart st) in
@@ -132,7 +132,7 @@ Section Orders.
      index name present, in the in-memory metadata, files present.  (Holds since the names
      file is replaced by rename; for the code before the fix see
      C14_unfixed_interrupted_survivor_searchable_refuted.) *)
-  Theorem C14_interrupted_survivor_searchable : forall hz org st, wf st = true -> mmem_ok hz org st ->
+  Theorem C14_interrupted_survivor_searchable : forall hz org st, wf st = true ->
     forall hz2, hz <= hz2 ->
     forall k s, In s (segmeta st ++ mmeta st ++ unrot st) -> expired hz2 org s = false -> In (s_dir s) (dirs st) ->
     (s_kind s = KLog -> has_table st s = true) ->
@@ -143,7 +143,7 @@ Section Orders.
      that an interrupted pass may have left in the temporary file, the pass ends with
      segmeta.json = the lines that were not selected, the same file as without a stale
      temporary file, and "listed iff directory exists" holds *)
-  Theorem C14_stale_tmp_is_harmless : forall hz org st c, wf st = true -> mmem_ok hz org st ->
+  Theorem C14_stale_tmp_is_harmless : forall hz org st c, wf st = true ->
     let A := run ord ordp ordn hz org (with_seg_tmp st c) in
     segmeta A = filter (fun s => negb (expired hz org s)) (segmeta st) /\
     mmeta A = filter (fun s => negb (expired hz org s)) (mmeta st) /\
@@ -151,6 +151,18 @@ Section Orders.
     (forall s, In s (segmeta st ++ mmeta st) -> In (s_dir s) (dirs st) ->
        (In s (segmeta A ++ mmeta A) <-> In (s_dir s) (dirs A))).
   Proof. exact (stale_tmp_harmless ord ordp ordn ord_perm ordp_perm ordn_perm). Qed.
+
+  (* No tags-tree directory is left behind: wherever the pass was stopped, after the restart and a
+     full pass (at any horizon hz2) the tags-tree directory of every selected metrics line that no
+     surviving line names is gone with everything below it.  (Holds since the tags trees are
+     deleted before metricmeta.json is rewritten; before the repair:
+     C14_prefix_tagstree_left_behind_refuted.) *)
+  Theorem C14_interrupted_tagstree_removed : forall hz org st, wf st = true ->
+    forall hz2 k s q, In s (mmeta st) -> expired hz2 org s = true ->
+    (forall s', In s' (mmeta st) -> expired hz2 org s' = false -> s_tt s' <> s_tt s) ->
+    is_prefix (s_tt s) q = true ->
+    ~ In q (dirs (run ord ordp ordn hz2 org (restart (interrupted ord ordp ordn k hz org st)))).
+  Proof. exact (interrupted_tagstree_removed ord ordp ordn ordp_perm ordn_perm). Qed.
 
   (* the full statement, all directories and the index names included, under the guard "the
      pass selects no metrics segment and empties no index" (interrupt_guard, a boolean function
@@ -167,6 +179,7 @@ End Orders.
 Print Assumptions C14_retention_selects_exactly.
 Print Assumptions C14_interrupted_then_repeated_guarded.
 Print Assumptions C14_interrupted_survivor_searchable.
+Print Assumptions C14_interrupted_tagstree_removed.
 Print Assumptions C14_stale_tmp_is_harmless.
 Print Assumptions C14_interrupted_then_repeated_partial.
 Print Assumptions C14_newer_segment_survives.
@@ -176,13 +189,9 @@ Print Assumptions C14_unrotated_untouched.
 Print Assumptions C14_metadata_lists_survivors.
 Print Assumptions C14_deleted_not_searchable.
 
-(* the hypotheses of the theorems above are satisfiable (the two stores are the witnesses used below) *)
-Example C14_hypotheses_satisfiable :
-  (wf w_tt_store = true /\ mmem_ok 500000 0 w_tt_store) /\ (wf w_vt_store = true /\ mmem_ok 500 0 w_vt_store).
-Proof.
-  split; [split; apply tagstree_left_behind_witness|]. split; [vm_compute; reflexivity|].
-  intros s Hs. vm_compute in Hs. contradiction.
-Qed.
+(* the hypothesis of the theorems above is satisfiable (the stores are the witnesses used below) *)
+Example C14_hypotheses_satisfiable : wf w_tt_store = true /\ wf w_vt_store = true /\ wf w_ab_store = true.
+Proof. repeat split; vm_compute; reflexivity. Qed.
 
 Example C14_guard_satisfiable :
   wf w_g_store = true /\ interrupt_guard 500 0 w_g_store = true /\ sel_log 500 0 w_g_store <> [].
@@ -192,22 +201,41 @@ Proof. exact guard_satisfiable. Qed.
 
    Full statement (the property text, "same outcome if the pass is interrupted and repeated"):
      forall k, run (restart (interrupted k st)) = run (restart st)   on every component.
-   Proved above: without guard for metadata files, in-memory metadata and segment directories
-   (C14_interrupted_then_repeated_partial), with the guard for every component
-   (C14_interrupted_then_repeated_guarded), and survivors stay searchable for every k
-   (C14_interrupted_survivor_searchable).  Outside the guard the faithful model violates the full
-   statement in one way (1); a second one (2) was repaired in siglens, both reproduced on the real code by the
-   harness (known/C14.json): *)
+   Proved above, for every k and every later horizon of the repeated pass: metadata files,
+   in-memory metadata and segment directories (C14_interrupted_then_repeated_partial), tags-tree
+   directories (C14_interrupted_tagstree_removed), searchability of the survivors
+   (C14_interrupted_survivor_searchable); every component, [dirs] as lists, under the guard
+   (C14_interrupted_then_repeated_guarded).  Not proved in general: equality of the empty parent
+   directories that the climb of the metrics half removes; it is evaluated inside Coq for every k
+   on the witness stores below and compared with the real code at every replayed stop point.
+   Four defects found with this statement have been repaired in siglens; [pass_effs_prefix]
+   (metrics half) and [pass_effs_unfixed] (names file) keep the old effect lists: *)
 
-(* (1) stopped after metricmeta.json has been renamed and before the tags-tree directories of
-   the removed segments are deleted: the repeated pass finds nothing to do for them and the
-   directories stay for ever *)
-Theorem C14_interrupted_then_repeated_refuted :
+(* (1) the code before the fix deleted the tags-tree directories AFTER metricmeta.json had been
+   rewritten: stopped in between, the repeated pass finds nothing to do for them and the
+   directories stay for ever.  The same witness store under the repaired pass: equal directories
+   for every stop point. *)
+Theorem C14_prefix_tagstree_left_behind_refuted :
   exists st hz org k, wf st = true /\ mmem_ok hz org st /\
-    dirs (run idl idl idl hz org (restart (interrupted idl idl idl k hz org st)))
-    <> dirs (run idl idl idl hz org (restart st)).
+    dirs (run_prefix idl idl idl hz org (restart (interrupted_prefix idl idl idl k hz org st)))
+    <> dirs (run_prefix idl idl idl hz org (restart st)) /\
+    forallb (fun k => list_eqb path_eqb
+                        (dirs (run idl idl idl hz org (restart (interrupted idl idl idl k hz org st))))
+                        (dirs (run idl idl idl hz org (restart st)))) (seq 0 12) = true.
 Proof. exists w_tt_store, 500000, 0%Z, 5%nat. exact tagstree_left_behind_witness. Qed.
-Print Assumptions C14_interrupted_then_repeated_refuted.
+Print Assumptions C14_prefix_tagstree_left_behind_refuted.
+
+(* (1b) the climb over empty parents could not resume from a directory that an interrupted pass
+   had already removed: an empty directory stayed *)
+Theorem C14_prefix_empty_parent_left_behind_refuted :
+  exists st hz org k d, wf st = true /\
+    In d (dirs (run_prefix idl idl idl hz org (restart (interrupted_prefix idl idl idl k hz org st)))) /\
+    ~ In d (dirs (run_prefix idl idl idl hz org (restart st))) /\
+    forallb (fun k => list_eqb path_eqb
+                        (dirs (run idl idl idl hz org (restart (interrupted idl idl idl k hz org st))))
+                        (dirs (run idl idl idl hz org (restart st)))) (seq 0 12) = true.
+Proof. exists w_cl_store, 500000, 0%Z, 3%nat, [1;2]. exact empty_parent_left_behind_witness. Qed.
+Print Assumptions C14_prefix_empty_parent_left_behind_refuted.
 
 (* (2) FIXED in siglens (fixes/C14-names-file-atomic.diff, known/C14.json status "fixed").
    The code before the fix rewrote the index-names file in place (os.WriteFile: O_TRUNC, then
@@ -238,14 +266,15 @@ Theorem C14_tmp_without_truncation_refuted :
 Proof. exists w_nt_store, 300, 500, 3%nat, w_nt_L. exact tmp_without_truncation_witness. Qed.
 Print Assumptions C14_tmp_without_truncation_refuted.
 
-(* without [mmem_ok]: one selected metrics segment that the in-memory metadata does not know
-   yet (rotated less than a refresh period ago) makes DeleteMetricsSegmentData return before
-   any file is touched; an expired segment that IS known stays on disk and in metricmeta.json
-   and has already left the in-memory metadata *)
-Theorem C14_metrics_pass_aborts_refuted :
+(* (4) the code before the fix: one selected metrics segment that the in-memory metadata does not
+   hold yet (rotated less than a refresh period ago) made DeleteMetricsSegmentData return before
+   any file was touched; an expired segment that IS known stayed on disk and in metricmeta.json
+   and had already left the in-memory metadata.  The repaired pass removes both. *)
+Theorem C14_prefix_metrics_pass_aborts_refuted :
   exists st hz org s, wf st = true /\ In s (mmeta st) /\ expired hz org s = true /\
     In (s_dir s) (mmem st) /\
-    In s (mmeta (run idl idl idl hz org st)) /\ In (s_dir s) (dirs (run idl idl idl hz org st)) /\
-    searchable (run idl idl idl hz org st) s = false.
+    In s (mmeta (run_prefix idl idl idl hz org st)) /\ In (s_dir s) (dirs (run_prefix idl idl idl hz org st)) /\
+    searchable (run_prefix idl idl idl hz org st) s = false /\
+    mmeta (run idl idl idl hz org st) = [] /\ ~ In (s_dir s) (dirs (run idl idl idl hz org st)).
 Proof. exists w_ab_store, 500000, 0%Z, w_ab_seg. exact metrics_abort_witness. Qed.
-Print Assumptions C14_metrics_pass_aborts_refuted.
+Print Assumptions C14_prefix_metrics_pass_aborts_refuted.
